@@ -109,7 +109,7 @@ def backend_tables(relpath, cls):
     return out
 
 
-GUARD_TEST = "not(tvisintortvisfloator(isinstance(v,ndarray)andself._backend.array_size(v)>0))"
+GUARD_TEST = "not (tv is int or tv is float or (isinstance(v, ndarray) and v.dtype != object and self._backend.array_size(v) > 0))"
 
 
 def guard_flag():
@@ -122,7 +122,7 @@ def guard_flag():
     ok_test = False
     for n in ast.walk(g):
         if isinstance(n, ast.If) and any(isinstance(b, ast.Raise) for b in n.body):
-            if ast.unparse(n.test).replace(" ", "") == GUARD_TEST:
+            if ast.dump(n.test) == ast.dump(ast.parse(GUARD_TEST, mode="eval").body):
                 ok_test = True
     if not ok_test:
         return False
@@ -142,6 +142,17 @@ def guard_flag():
     return n_sites == 3
 
 
+def _admits_object(m):
+    """the ndarray admission test of _ast_to_ir: plain isinstance (object arrays admitted) or `... and val.dtype != object`"""
+    fn = astlib.find_func(m, "_ast_to_ir")
+    tests = [ast.unparse(n.test).replace(" ", "") for n in ast.walk(fn) if isinstance(n, ast.If) and "ndarray" in ast.unparse(n.test)]
+    if tests == ["isinstance(val,klong._backend.np.ndarray)"]:
+        return True
+    if tests == ["isinstance(val,klong._backend.np.ndarray)andval.dtype!=object"]:
+        return False
+    raise ShapeError("_ast_to_ir: ndarray admission test not recognised: %r" % tests)
+
+
 def _coq_tbl(tbl):
     return astlib.coq_list(["(%s, %s)" % (astlib.coq_string(k), astlib.coq_string(v)) for k, v in tbl])
 
@@ -152,11 +163,11 @@ def _coq_tpl(parts):
 
 def _coq_tables(name, sets, bt):
     if bt is None:
-        body = ("arith_ops := []; cmp_ops := []; redscan_ops := []; t_bin := []; t_cmp := []; t_red := []; t_scan := [];\n"
+        body = ("arith_ops := []; cmp_ops := []; redscan_ops := []; t_bin := []; t_cmp := []; t_red := []; t_scan := []; adm_obj := true;\n"
                 "  f_bin := []; f_cmp := []; f_neg := []; f_red := []; f_scan := []")
     else:
-        ar, cm, rs = sets
-        body = ("arith_ops := %s; cmp_ops := %s; redscan_ops := %s;\n  t_bin := %s;\n  t_cmp := %s;\n  t_red := %s;\n  t_scan := %s;\n"
+        ar, cm, rs, adm = sets
+        body = ("arith_ops := %s; cmp_ops := %s; redscan_ops := %s; adm_obj := " + astlib.coq_bool(adm) + ";\n  t_bin := %s;\n  t_cmp := %s;\n  t_red := %s;\n  t_scan := %s;\n"
                 "  f_bin := %s;\n  f_cmp := %s;\n  f_neg := %s;\n  f_red := %s;\n  f_scan := %s") % (
             astlib.coq_list([astlib.coq_string(x) for x in ar]), astlib.coq_list([astlib.coq_string(x) for x in cm]),
             astlib.coq_list([astlib.coq_string(x) for x in rs]),
@@ -170,7 +181,8 @@ def read_tables():
         m = astlib.module("klongpy/compiler.py")
         return (_set_of_consts(astlib.module_assign(m, "_ARITH_OPS"), "_ARITH_OPS"),
                 _set_of_consts(astlib.module_assign(m, "_CMP_OPS"), "_CMP_OPS"),
-                _set_of_consts(astlib.module_assign(m, "_REDUCE_SCAN_OPS"), "_REDUCE_SCAN_OPS"))
+                _set_of_consts(astlib.module_assign(m, "_REDUCE_SCAN_OPS"), "_REDUCE_SCAN_OPS"),
+                _admits_object(m))
     s, why_s = astlib.try_flag(sets)
     npt, why_n = astlib.try_flag(lambda: backend_tables("klongpy/backends/numpy_backend.py", "NumpyBackendProvider"))
     tot, why_t = astlib.try_flag(lambda: backend_tables("klongpy/backends/torch_backend.py", "TorchBackendProvider"))
@@ -201,6 +213,8 @@ def fbits(x):
     x = float(x)
     if x != x:
         return NAN_BITS
+    if x == 0.0:
+        return 0                    # -0.0 == 0.0: the property compares elements, not sign bits of zero
     return struct.unpack(">Q", struct.pack(">d", x))[0]
 
 
@@ -268,7 +282,7 @@ def enc_expr(node):
                 return ["other"]
             return ["dy", cps(op), enc_expr(args[0]), enc_expr(args[1])]
         if ar == 1:
-            a = args[0] if isinstance(args, list) else args
+            a = args[0] if type(args) is list else args
             return ["mo", cps(op), enc_expr(a)]
         return ["other"]
     if isinstance(node, KGCall) and node.is_adverb_chain():
@@ -296,7 +310,7 @@ def enc_val(v):
             return ["a1"] + [enc_elem(x) for x in v]
         if v.dtype.kind in "if" and v.ndim == 2 and v.shape[0] > 0 and v.shape[1] > 0:
             return ["a2"] + [[enc_elem(x) for x in row] for row in v]
-        return ["obj"]
+        return ["obj"] if v.dtype == object else ["hi"]
     if v is KLONG_UNDEFINED:
         return ["u"]
     if isinstance(v, str):
@@ -654,7 +668,10 @@ def corr_cases(rng, tier):
 def _res_model(m):
     """model (ok v flag) | (err) | (unm) | (nocomp) -> ('ok', sx(v), flag) | ('err',) | ('unm',) | ('nocomp',)"""
     if m[0] == "ok":
-        return ("ok", sx(m[1]), m[2])
+        t = sx(m[1])
+        if t in ("(other)", "(obj)", "(hi)"):      # an opaque value passed through: nothing to compare
+            return ("unm",)
+        return ("ok", t, m[2])
     return (m[0],)
 
 
@@ -666,8 +683,26 @@ def _res_impl(r):
     return ("err",)
 
 
-def same_res(m, i, flag=False):
+_BIG = 2 ** 53
+
+
+def _out_of_domain(t):
+    """an integer at or beyond 2^53, or an infinite/NaN real: outside the magnitudes the model claims (no int64
+    wrap-around, no float overflow of integer powers)"""
+    import re
+    for z in re.findall(r"\(i (-?\d+)\)", t):
+        if abs(int(z)) >= _BIG:
+            return True
+    for z in re.findall(r"\(r (\d+)\)", t):
+        if (int(z) >> 52) & 2047 == 2047:
+            return True
+    return False
+
+
+def same_res(m, i, flag=False, power=False):
     if m[0] == "unm":
+        return None
+    if power and ((m[0] == "ok" and _out_of_domain(m[1])) or (i[0] == "ok" and _out_of_domain(i[1]))):
         return None
     if m[0] != i[0]:
         return False
@@ -703,6 +738,7 @@ def check_corr(chk, rng, tier):
             continue
         m = {x[0]: x[1] for x in out}
         what = None
+        pw = "^" in case["text"] or "*" in case["text"]
         # (i) plain data: IR tree, parameters, symbols, source text
         if sx(m["np"]) != sx(rec["np"]):
             what = "ast_to_ir/collect_params/ir_to_source (numpy)"
@@ -720,7 +756,7 @@ def check_corr(chk, rng, tier):
                 chk.count("corr_torch_source_compared")
             if rec["np"][0] == "some":
                 chk.count("corr_compiled")
-                r = same_res(_res_model(m["run"]), _res_impl(rec.get("run")), flag=True)
+                r = same_res(_res_model(m["run"]), _res_impl(rec.get("run")), flag=True, power=pw)
                 if r is None:
                     chk.count("corr_run_unmodelled")
                 elif not r:
@@ -728,7 +764,7 @@ def check_corr(chk, rng, tier):
                 else:
                     chk.count("corr_run_agree")
             if what is None:
-                r = same_res(_res_model(m["interp"]), _res_impl(rec["interp"]))
+                r = same_res(_res_model(m["interp"]), _res_impl(rec["interp"]), power=pw)
                 if r is None:
                     chk.count("corr_interp_unmodelled")
                 elif not r:
@@ -736,7 +772,9 @@ def check_corr(chk, rng, tier):
                 else:
                     chk.count("corr_interp_agree")
             if what is None:
-                r = same_res(_res_model(m["site"]), _res_impl(rec["site"]))
+                # the model's site has no compiled sub-nodes: outside D5 a sub-node compiled on its own may
+                # carry a known finding into the interpreter's fallback path, so compare on D5 only
+                r = same_res(_res_model(m["site"]), _res_impl(rec["site"]), power=pw) if m["d5"] == 1 else None
                 if r is None:
                     chk.count("corr_site_unmodelled")
                 elif not r:
@@ -777,6 +815,8 @@ def _intify(o):
             x = struct.unpack(">d", struct.pack(">Q", o[1]))[0]
             if x == x and not math.isinf(x) and x == math.floor(x):
                 return ["i", int(x)]
+            if math.isinf(x):
+                return ["i", -2 ** 63]          # what ndarray.astype(int) makes of an infinite "whole" result
             return o
         return [_intify(x) for x in o]
     return o
@@ -802,15 +842,33 @@ def _is_infnan(s):
     return False
 
 
+def _has_infnan(s):
+    if s == "EXC":
+        return False
+    def walk(o):
+        if isinstance(o, list):
+            if len(o) == 2 and o[0] == "r" and isinstance(o[1], int):
+                x = struct.unpack(">d", struct.pack(">Q", o[1]))[0]
+                return x != x or math.isinf(x)
+            return any(walk(x) for x in o)
+        return False
+    try:
+        return walk(parse_sx(s))
+    except Exception:
+        return False
+
+
 def classify_pair(op, normal, stub):
-    """a differing pair of results of a subexpression rooted at op, evaluated alone -> finding id or None"""
-    if op == "^" and normal != "EXC" and stub != "EXC":
-        try:
-            if _close(_intify(parse_sx(normal)), _intify(parse_sx(stub))):
-                return "C05-power-kind"
-        except Exception:
-            return None
-    if op == "%" and stub == "(u 1)" and _is_infnan(normal):
+    """a differing pair of results of an innermost differing subexpression rooted at op, evaluated alone
+    -> finding id or None.
+    C05-power-kind: the '^': '**' entry — Python/NumPy ** is not the interpreter's Power (kind of whole results,
+      libm pow, broadcasting of nested lists): any difference of a subexpression rooted at ^.
+    C05-divide-numpy-zero: a division by zero is decided by the representation of the scalars involved
+      (Python: ZeroDivisionError / :undefined, NumPy: inf/nan), and the two paths produce different
+      representations: one side :undefined or an error, the other contains inf/nan, subexpression rooted at %."""
+    if op == "^":
+        return "C05-power-kind"
+    if op == "%" and ((stub in ("(u 1)", "EXC") and _has_infnan(normal)) or (normal in ("(u 1)", "EXC") and _has_infnan(stub))):
         return "C05-divide-numpy-zero"
     return None
 
@@ -860,7 +918,16 @@ def attribute_all(items, backend):
                 continue
             if any(u is not t and u in differing for u in subtrees(t)):
                 continue
-            fid = classify_pair(t[1] if t[0] == "dy" else None, a, b)
+            op = t[1] if t[0] == "dy" else None
+            # a variable-free subexpression is compiled only as part of its parent: a ^ inside it belongs to t
+            if any(u is not t and u[0] == "dy" and u[1] == "^" and not has_var(u) for u in subtrees(t)):
+                op = "^"
+            fid = classify_pair(op, a, b)
+            if fid is None:
+                # a variable-free division that is :undefined on its own, compiled as part of t
+                und = {text_of(u2) for u2, a2, b2 in subs if b2 == "(u 1)"}
+                if any(u is not t and u[0] == "dy" and u[1] == "%" and not has_var(u) and text_of(u) in und for u in subtrees(t)):
+                    fid = "C05-divide-numpy-zero"
             if fid is None:
                 why = "subexpression %s: compiled %s, interpreter %s" % (text_of(t), a, b)
                 break
@@ -951,6 +1018,9 @@ def run(tier, replay=None):
                           % (bp["backend"], bp["position"], bp["expression"]), bp)
     if not chk.violations and (bad_corr is not None or gone or not proof["ok"]):
         # something no longer checks: search wider for a failing input of the property itself
+        print("C05: %s; searching for a failing input" % (
+            ("model and implementation disagree on " + bad_corr["kind"]) if bad_corr is not None else
+            ("known finding gone: " + gone[0]["finding"]) if gone else ("proof obligation broken: %s" % proof["broken"])), flush=True)
         wide = check_diff(chk, random.Random(chk.seed + 1), tier, "numpy", scale=3)
         if wide is not None:
             chk.violation("the value of an expression depends on whether the expression compiler handled it (%s position): %s"
